@@ -16,6 +16,10 @@ print(' '.join(cs))
 PY
 )
   for c in $checks; do
+    # seeds that a later repair of /repo has made benign (or unreachable for a check) are listed, not run
+    if python3 -c "import json,sys; m=json.load(open('$d/meta.json')); sys.exit(0 if m.get('obsolete_on_current_tree') and '$c' not in m.get('still_detected_by',[]) else 1)"; then
+      echo "$id $c OBSOLETE (see meta.json note)"; continue
+    fi
     out=$(tools/mutant.sh $d/patch.diff $c 2>&1)
     if echo "$out" | grep -q "^VIOLATION property=$c"; then r=DETECTED; else r=MISSED; fi
     echo "$id $c $r $(echo "$out" | grep -m1 -o 'rule=[^ ]*') $( [ $r = MISSED ] && echo "$out" | tail -2 | tr '\n' ' ' | cut -c1-200)"
